@@ -545,7 +545,7 @@ fn apply_model(m: &mut Model, op: &HOp, relax: Relax) -> bool {
             if relax == Relax::ListReplies {
                 return matches!(rep, Reply::Fingerprints(_));
             }
-            let want: BTreeMap<String, Hash> = m.iter().map(|(k, v)| (k.clone(), b3(v))).collect();
+            let want: BTreeMap<String, Hash> = m.iter().filter(|(k, _)| !k.ends_with('/')).map(|(k, v)| (k.clone(), b3(v))).collect();
             match rep {
                 Reply::Fingerprints(got) => {
                     let got: BTreeMap<String, Hash> = got
@@ -573,11 +573,21 @@ fn apply_model(m: &mut Model, op: &HOp, relax: Relax) -> bool {
                 // an invalid put changes nothing and is answered with an error (or nothing)
                 return matches!(rep, Reply::Error(_));
             }
+            // a path below a regular file cannot hold anything: refused, nothing changes
+            if below_a_file(m, path) {
+                return matches!(rep, Reply::Error(_));
+            }
             let cur = m.get(path).map(|b| b3(b));
             if cur == *expected {
+                // a path occupied by a directory cannot be committed to: refused
+                if m.contains_key(&format!("{path}/")) {
+                    return matches!(rep, Reply::Error(_));
+                }
+                add_parent_dirs(m, path);
                 m.insert(path.clone(), body.clone());
                 *rep == Reply::PutResult { committed: true, current: Some(b3(body)) }
             } else {
+                add_parent_dirs(m, path);
                 m.insert(format!("{path}.conflict-{}", short_hex(&b3(body))), body.clone());
                 *rep == Reply::PutResult { committed: false, current: cur }
             }
@@ -592,6 +602,45 @@ fn apply_model(m: &mut Model, op: &HOp, relax: Relax) -> bool {
             }
         }
     }
+}
+
+/// Directories are kept in the model as marker keys ending in '/' (a directory outlives
+/// the files in it). `with_dirs` adds the markers implied by a set of files.
+pub fn add_parent_dirs(m: &mut Model, path: &str) {
+    let mut cur = String::new();
+    let comps: Vec<&str> = path.split('/').collect();
+    for c in &comps[..comps.len().saturating_sub(1)] {
+        cur.push_str(c);
+        cur.push('/');
+        m.entry(cur.clone()).or_default();
+    }
+}
+
+pub fn with_dirs(files: &Model) -> Model {
+    let mut m = files.clone();
+    for p in files.keys() {
+        add_parent_dirs(&mut m, p);
+    }
+    m
+}
+
+fn below_a_file(m: &Model, path: &str) -> bool {
+    let comps: Vec<&str> = path.split('/').collect();
+    let mut cur = String::new();
+    for c in &comps[..comps.len().saturating_sub(1)] {
+        if !cur.is_empty() {
+            cur.push('/');
+        }
+        cur.push_str(c);
+        if m.contains_key(&cur) {
+            return true;
+        }
+    }
+    false
+}
+
+fn files_only(m: &Model) -> Model {
+    m.iter().filter(|(k, _)| !k.ends_with('/')).map(|(k, v)| (k.clone(), v.clone())).collect()
 }
 
 pub struct Wgl<'a> {
@@ -612,7 +661,7 @@ impl<'a> Wgl<'a> {
     pub fn search(&mut self, init: &Model) -> Option<bool> {
         let n = self.ops.len();
         assert!(n <= 63);
-        let r = self.dfs(0, init.clone());
+        let r = self.dfs(0, with_dirs(init));
         if self.nodes >= self.cap {
             return None;
         }
@@ -626,7 +675,7 @@ impl<'a> Wgl<'a> {
         }
         let n = self.ops.len();
         if mask == (1u64 << n) - 1 {
-            return &m == self.final_tree;
+            return &files_only(&m) == self.final_tree;
         }
         if !self.seen.insert((mask, model_hash(&m))) {
             return false;
